@@ -1,5 +1,117 @@
 /- Helper lemmas for C16. -/
 import DhtVerif.Model.Announce
+import DhtVerif.Lemmas.C18Knn
 namespace Dht
+
+/-- Every element of an upsert fold is an element of the start or of the folded list. -/
+theorem KNN.mem_foldl_upsert (l acc : List KElem) (x : KElem)
+    (h : x ∈ l.foldl KNN.upsert acc) : x ∈ acc ∨ x ∈ l := by
+  induction l generalizing acc with
+  | nil => exact Or.inl h
+  | cons e es ih =>
+    rw [List.foldl_cons] at h
+    rcases ih _ h with h | h
+    · rcases (KNN.mem_upsert acc e x).mp h with rfl | ⟨hm, _⟩
+      · exact Or.inr (List.mem_cons_self ..)
+      · exact Or.inl hm
+    · exact Or.inr (List.mem_cons_of_mem _ h)
+
+/-- Membership in `announceClosest`. -/
+theorem mem_announceClosest (closest : List KElem) (o : AnnounceOut) :
+    o ∈ announceClosest closest ↔ ∃ e ∈ closest, e.addr = o.dst ∧ e.data = some o.token := by
+  unfold announceClosest
+  rw [List.mem_filterMap]
+  constructor
+  · rintro ⟨e, he, hm⟩
+    refine ⟨e, he, ?_⟩
+    cases hd : e.data with
+    | none => simp [hd] at hm
+    | some t =>
+      simp only [hd, Option.map_some, Option.some.injEq] at hm
+      subst hm
+      exact ⟨rfl, rfl⟩
+  · rintro ⟨e, he, ha, hd⟩
+    refine ⟨e, he, ?_⟩
+    cases o
+    simp_all
+
+/-- When every element carries data, `announceClosest` keeps all of them. -/
+theorem announceClosest_length_of_all_some (closest : List KElem)
+    (h : ∀ e ∈ closest, e.data.isSome = true) :
+    (announceClosest closest).length = closest.length := by
+  unfold announceClosest
+  induction closest with
+  | nil => rfl
+  | cons e es ih =>
+    have he := h e (List.mem_cons_self ..)
+    obtain ⟨t, ht⟩ := Option.isSome_iff_exists.mp he
+    rw [List.filterMap_cons]
+    simp only [ht, Option.map_some, List.length_cons]
+    rw [ih (fun x hx => h x (List.mem_cons_of_mem _ hx))]
+
+/-- `announceClosest` never produces more announces than there are members. -/
+theorem announceClosest_length_le (closest : List KElem) :
+    (announceClosest closest).length ≤ closest.length :=
+  List.length_filterMap_le _ _
+
+/-- The eligible set of `announceAllowed`. -/
+def announceElig (nodeFilter : Cand → Bool) (resps : List GpResp) : List KElem :=
+  List.foldl KNN.upsert [] ((resps.filter (fun r => r.token.isSome && nodeFilter ⟨some r.id, r.addr⟩)).map GpResp.elem)
+
+/-- Every eligible element stems from a response with that id, address and token that passed the filter. -/
+theorem mem_announceElig (nf : Cand → Bool) (resps : List GpResp) (e : KElem)
+    (h : e ∈ announceElig nf resps) :
+    ∃ r ∈ resps, r.elem = e ∧ r.token.isSome = true ∧ nf ⟨some r.id, r.addr⟩ = true := by
+  rcases KNN.mem_foldl_upsert _ _ _ h with h | h
+  · simp at h
+  · obtain ⟨r, hr, rfl⟩ := List.mem_map.mp h
+    rw [List.mem_filter, Bool.and_eq_true] at hr
+    exact ⟨r, hr.1, rfl, hr.2.1, hr.2.2⟩
+
+/-! ### `eraseDups` and `Nodup` -/
+
+theorem length_eraseDups_le {α} [BEq α] [LawfulBEq α] (l : List α) : l.eraseDups.length ≤ l.length := by
+  generalize hn : l.length = n
+  induction n using Nat.strongRecOn generalizing l with
+  | _ n ih =>
+    cases l with
+    | nil => simp
+    | cons a as =>
+      rw [List.eraseDups_cons]
+      simp only [List.length_cons] at hn ⊢
+      have hf := List.length_filter_le (fun b => !b == a) as
+      have := ih (as.filter fun b => !b == a).length (by omega) _ rfl
+      omega
+
+theorem nodup_of_length_eraseDups {α} [BEq α] [LawfulBEq α] (l : List α)
+    (h : l.eraseDups.length = l.length) : l.Nodup := by
+  induction l with
+  | nil => exact List.nodup_nil
+  | cons a as ih =>
+    rw [List.eraseDups_cons] at h
+    simp only [List.length_cons, Nat.add_right_cancel_iff] at h
+    have hf := List.length_filter_le (fun b => !b == a) as
+    have hle := length_eraseDups_le (as.filter fun b => !b == a)
+    have hlen : (as.filter fun b => !b == a).length = as.length := by omega
+    have hall := List.length_filter_eq_length_iff.mp hlen
+    have hself : as.filter (fun b => !b == a) = as := List.filter_eq_self.mpr hall
+    rw [hself] at h
+    refine List.nodup_cons.mpr ⟨?_, ih h⟩
+    intro hmem
+    have := hall a hmem
+    simp at this
+
+/-- When every element carries data, the announces are the members, one for one and in order. -/
+theorem announceClosest_dsts_of_all_some (closest : List KElem)
+    (h : ∀ e ∈ closest, e.data.isSome = true) :
+    (announceClosest closest).map (·.dst) = closest.map (·.addr) := by
+  unfold announceClosest
+  induction closest with
+  | nil => rfl
+  | cons e es ih =>
+    obtain ⟨t, ht⟩ := Option.isSome_iff_exists.mp (h e (List.mem_cons_self ..))
+    rw [List.filterMap_cons]
+    simp only [ht, Option.map_some, List.map_cons]
+    rw [ih (fun x hx => h x (List.mem_cons_of_mem _ hx))]
 
 end Dht
